@@ -6,9 +6,12 @@
    Two signature bodies (SIG_FORS || SIG_HT) accepted for the same selectors
    under the same public key are therefore either equal, or the two
    verifications contain
-     - a same-tweak collision: one of F, H, T_l called with the same PK.seed
-       and the same ADRS on two DIFFERENT inputs of EQUAL (positive) length
-       with equal outputs (`th_collision`), or
+     - a LOCATED same-tweak collision (`located_collision ... = true`, a boolean
+       computed from the two signatures): the traces (function, ADRS, input) of
+       the two verifications contain two calls of the same function among F, H,
+       T_l with the same ADRS on DIFFERENT inputs of EQUAL length and equal
+       outputs.  (An unlocated "there exist x <> y with ..." is free by
+       pigeonhole under the output-length and byte-string laws; third audit.)
      - a LOCATED WOTS+ switch (`sig_switch ... = true`, a boolean computed from
        the two signatures): at some hypertree layer the two verifications
        recompute the SAME WOTS+ public key from their WOTS+ parts although the
@@ -23,12 +26,12 @@
        of the secret values can always make them).
    The proofs are constructive (closed under the global context): they are
    the reduction that extracts the collision / switch from the two signatures.
-   What is NOT claimed here: a modification that changes R or the message changes
-   the digest.  When the new digest keeps (idx_tree, idx_leaf) and changes only the
-   FORS indices, proofs/SlhdsaTargetSubset.v reduces acceptance to the explicit
-   target-subset event (crossing openings in every FORS tree); when it selects
-   another hypertree leaf nothing is proved (target-subset resilience of H_msg and
-   PRF secrecy are not hash laws of this development). *)
+   Digest-changing modifications (message or R changed): proofs/SlhdsaTargetSubset.v
+   compares ANY accepted signature with the key holder's signature for the same
+   (R, message) and so reduces acceptance to the explicit target-subset event (the
+   signature reveals the PRF secrets at all k FORS leaves its digest selects), or
+   the located switch / collision.  That the event is infeasible (target-subset
+   resilience of H_msg, PRF secrecy) is not a hash law of this development. *)
 From Coq Require Import List NArith Bool Arith Lia ZifyN ZifyNat ZifyBool.
 From Tink Require Import Bytes SlhdsaSupport SlhdsaAddr SlhdsaBase SlhdsaWots SlhdsaXmss SlhdsaFors SlhdsaHt Slhdsa
   SlhdsaSpec SlhdsaListProofs SlhdsaSupportProofs SlhdsaWotsProofs SlhdsaXmssProofs SlhdsaForsProofs SlhdsaHtProofs
@@ -239,79 +242,202 @@ Section ANTICHAIN.
   Qed.
 End ANTICHAIN.
 
+(* ---------- hash calls, traces, LOCATED collisions ----------
+   A call is (which function, ADRS, input).  A located collision between two traces: an
+   entry of the first and an entry of the second with the same function and ADRS,
+   DIFFERENT inputs of EQUAL length, and equal outputs -- a boolean computed from the
+   two traces.  (The unlocated `th_collision` above is free by pigeonhole under
+   hashes_ok + hashes_wfb; it is kept only to state that a located one implies it.) *)
+Inductive kind := KF | KH | KT.
+Definition call : Type := kind * address * bytes.
+
+Definition kind_eqb (a b : kind) : bool :=
+  match a, b with KF, KF | KH, KH | KT, KT => true | _, _ => false end.
+Definition addr_eqb (a b : address) : bool :=
+  N.eqb (a_layer a) (a_layer b) && N.eqb (a_tree a) (a_tree b) && N.eqb (a_typ a) (a_typ b)
+  && N.eqb (a_kp a) (a_kp b) && N.eqb (a_w2 a) (a_w2 b) && N.eqb (a_w3 a) (a_w3 b).
+
+Lemma kind_eqb_eq a b : kind_eqb a b = true <-> a = b.
+Proof. destruct a, b; simpl; split; intros; try discriminate; reflexivity. Qed.
+Lemma addr_eqb_eq a b : addr_eqb a b = true <-> a = b.
+Proof.
+  destruct a as [l1 t1 y1 k1 u1 v1], b as [l2 t2 y2 k2 u2 v2]. unfold addr_eqb. cbn [a_layer a_tree a_typ a_kp a_w2 a_w3]. split.
+  - intros H. repeat (apply andb_prop in H; destruct H as [H ?]).
+    repeat match goal with X : N.eqb _ _ = true |- _ => apply N.eqb_eq in X end. congruence.
+  - intros E. inversion E; subst. rewrite !N.eqb_refl. reflexivity.
+Qed.
+
+Section CALLS.
+  Variable HS : hashes.
+  Variable pk : bytes.
+
+  Definition call_out (c : call) : bytes :=
+    let '(k, ad, x) := c in
+    match k with KF => hF HS pk ad x | KH => hH HS pk ad x | KT => hTl HS pk ad x end.
+
+  Definition collideb (c1 c2 : call) : bool :=
+    let '(k1, a1, x1) := c1 in let '(k2, a2, x2) := c2 in
+    kind_eqb k1 k2 && addr_eqb a1 a2 && negb (beq x1 x2) && Nat.eqb (length x1) (length x2)
+    && beq (call_out c1) (call_out c2).
+
+  (* THE LOCATED COLLISION between two traces *)
+  Definition cb (T1 T2 : list call) : bool := existsb (fun c1 => existsb (collideb c1) T2) T1.
+
+  Lemma cb_intro k ad x y T1 T2 : In (k, ad, x) T1 -> In (k, ad, y) T2 -> x <> y -> length x = length y ->
+    call_out (k, ad, x) = call_out (k, ad, y) -> cb T1 T2 = true.
+  Proof.
+    intros I1 I2 Hne L E. unfold cb. apply existsb_exists. exists (k, ad, x). split; [exact I1|].
+    apply existsb_exists. exists (k, ad, y). split; [exact I2|]. unfold collideb.
+    rewrite (proj2 (kind_eqb_eq k k) eq_refl), (proj2 (addr_eqb_eq ad ad) eq_refl), L, Nat.eqb_refl, E, beq_refl.
+    destruct (beq x y) eqn:B; [apply beq_eq in B; contradiction|reflexivity].
+  Qed.
+
+  Lemma cb_mono T1 T2 T1' T2' : incl T1 T1' -> incl T2 T2' -> cb T1 T2 = true -> cb T1' T2' = true.
+  Proof.
+    intros I1 I2 H. unfold cb in *. apply existsb_exists in H. destruct H as (c1 & H1 & H).
+    apply existsb_exists in H. destruct H as (c2 & H2 & H).
+    apply existsb_exists. exists c1. split; [apply I1; exact H1|].
+    apply existsb_exists. exists c2. split; [apply I2; exact H2|exact H].
+  Qed.
+
+  Lemma call_inj k ad x y T1 T2 : In (k, ad, x) T1 -> In (k, ad, y) T2 ->
+    call_out (k, ad, x) = call_out (k, ad, y) -> length x = length y -> x = y \/ cb T1 T2 = true.
+  Proof.
+    intros I1 I2 E L. destruct (bytes_eq_dec x y) as [e|ne]; [left; exact e|right].
+    exact (cb_intro k ad x y T1 T2 I1 I2 ne L E).
+  Qed.
+
+  (* what a located collision is, spelled out *)
+  Lemma cb_sound T1 T2 : cb T1 T2 = true ->
+    exists k ad x y, In (k, ad, x) T1 /\ In (k, ad, y) T2 /\ x <> y /\ length x = length y /\ 0 < length x /\
+      call_out (k, ad, x) = call_out (k, ad, y).
+  Proof.
+    unfold cb. intros H. apply existsb_exists in H. destruct H as ([[k1 a1] x1] & H1 & H).
+    apply existsb_exists in H. destruct H as ([[k2 a2] x2] & H2 & H). unfold collideb in H.
+    repeat (apply andb_prop in H; destruct H as [H ?]).
+    apply kind_eqb_eq in H. apply addr_eqb_eq in H5. subst k2 a2.
+    apply Nat.eqb_eq in H3. apply beq_eq in H0.
+    assert (Hne : x1 <> x2) by (intros ->; rewrite beq_refl in H4; discriminate).
+    exists k1, a1, x1, x2. repeat split; auto. exact (neq_len_pos x1 x2 Hne H3).
+  Qed.
+
+  Lemma cb_th_collision T1 T2 : cb T1 T2 = true -> th_collision HS pk.
+  Proof.
+    intros H. destruct (cb_sound _ _ H) as (k & ad & x & y & _ & _ & Hne & L & Lp & E).
+    exists ad, x, y. repeat split; auto. destruct k; cbn in E; tauto.
+  Qed.
+End CALLS.
+
+Lemma incl_flat_map_seq {B} (f : nat -> list B) s cnt i : s <= i < s + cnt -> incl (f i) (flat_map f (seq s cnt)).
+Proof. intros Hi x Hx. apply in_flat_map. exists i. split; [apply in_seq; lia|exact Hx]. Qed.
+
 Section FORGERY.
   Variable P : params.
   Variable HS : hashes.
   Hypothesis OK : hashes_ok P HS.
   Notation n := (p_n P).
   Variable pk : bytes.
-  Notation COLL := (th_collision HS pk).
-
-  (* ---------- one call ---------- *)
-  Lemma hF_inj ad x y : hF HS pk ad x = hF HS pk ad y -> length x = length y -> x = y \/ COLL.
-  Proof.
-    intros E L. destruct (bytes_eq_dec x y) as [e|ne]; [left; exact e|right].
-    exists ad, x, y. split; [exact ne|]. split; [exact L|]. split; [exact (neq_len_pos x y ne L)|]. tauto.
-  Qed.
-  Lemma hH_inj ad x y : hH HS pk ad x = hH HS pk ad y -> length x = length y -> x = y \/ COLL.
-  Proof.
-    intros E L. destruct (bytes_eq_dec x y) as [e|ne]; [left; exact e|right].
-    exists ad, x, y. split; [exact ne|]. split; [exact L|]. split; [exact (neq_len_pos x y ne L)|]. tauto.
-  Qed.
-  Lemma hTl_inj ad x y : hTl HS pk ad x = hTl HS pk ad y -> length x = length y -> x = y \/ COLL.
-  Proof.
-    intros E L. destruct (bytes_eq_dec x y) as [e|ne]; [left; exact e|right].
-    exists ad, x, y. split; [exact ne|]. split; [exact L|]. split; [exact (neq_len_pos x y ne L)|]. tauto.
-  Qed.
+  Notation CB := (cb HS pk).
 
   (* ---------- chains ---------- *)
+  Fixpoint tr_chain (l t kp c : N) (x : bytes) (i : N) (s : nat) : list call :=
+    match s with
+    | O => []
+    | S s' => (KF, mkA l t T_WOTSHASH kp c i, x)
+              :: tr_chain l t kp c (hF HS pk (mkA l t T_WOTSHASH kp c i) x) (i + 1) s'
+    end.
+
   Lemma chainS_inj : forall s l t kp c x y i, length x = n -> length y = n ->
-    chainS HS l t kp c pk x i s = chainS HS l t kp c pk y i s -> x = y \/ COLL.
+    chainS HS l t kp c pk x i s = chainS HS l t kp c pk y i s ->
+    x = y \/ CB (tr_chain l t kp c x i s) (tr_chain l t kp c y i s) = true.
   Proof.
     induction s as [|s IH]; intros l t kp c x y i Hx Hy E; [left; exact E|].
-    cbn [chainS] in E. apply IH in E; try apply (hF_len _ _ OK).
-    destruct E as [E|C]; [|right; exact C]. apply hF_inj in E; [exact E|lia].
+    cbn [chainS tr_chain] in *. apply IH in E; try apply (hF_len _ _ OK).
+    destruct E as [E|C].
+    - apply (call_inj HS pk KF (mkA l t T_WOTSHASH kp c i) x y); [left; reflexivity|left; reflexivity|exact E|lia].
+    - right. eapply cb_mono; [| |exact C]; apply incl_tl, incl_refl.
   Qed.
 
-  (* ---------- WOTS+ public key from signature, same message digits ---------- *)
+  Lemma tr_chain_app : forall a b l t kp c x i,
+    tr_chain l t kp c x i (a + b)
+    = tr_chain l t kp c x i a ++ tr_chain l t kp c (chainS HS l t kp c pk x i a) (i + N.of_nat a) b.
+  Proof.
+    induction a as [|a IH]; intros; cbn [Nat.add tr_chain chainS app].
+    - rewrite N.add_0_r. reflexivity.
+    - replace (i + N.of_nat (S a))%N with (i + 1 + N.of_nat a)%N by lia. rewrite IH. reflexivity.
+  Qed.
+
+  (* ---------- WOTS+ public key from signature ---------- *)
+  Definition wots_chain (l t kp : N) (msgw : list N) (sig : bytes) (i : nat) : bytes :=
+    let mi := nth i msgw 0%N in
+    chainS HS l t kp (N.of_nat i) pk (chunk P i sig) mi (N.to_nat (N.of_nat (p_w P) - 1 - mi)).
+  Definition tr_wots_chain (l t kp : N) (msgw : list N) (sig : bytes) (i : nat) : list call :=
+    let mi := nth i msgw 0%N in
+    tr_chain l t kp (N.of_nat i) (chunk P i sig) mi (N.to_nat (N.of_nat (p_w P) - 1 - mi)).
+  Definition tr_wots (l t kp : N) (msgw : list N) (sig : bytes) : list call :=
+    flat_map (tr_wots_chain l t kp msgw sig) (seq 0 (p_len P))
+    ++ [(KT, mkA l t T_WOTSPK kp 0 0, flat_map (wots_chain l t kp msgw sig) (seq 0 (p_len P)))].
+
+  Lemma wots_pk_call l t kp msgw sig :
+    wotsPkFromSigS P HS l t kp msgw sig pk
+    = call_out HS pk (KT, mkA l t T_WOTSPK kp 0 0, flat_map (wots_chain l t kp msgw sig) (seq 0 (p_len P))).
+  Proof. reflexivity. Qed.
+
+  Lemma wots_chain_len l t kp msgw z : length z = p_len P * n -> forall j, 0 <= j < 0 + p_len P ->
+    length (wots_chain l t kp msgw z j) = n.
+  Proof.
+    intros Hz j Hj. unfold wots_chain. cbv zeta. apply chainS_length; [apply (hF_len _ _ OK)|].
+    apply gchunk_length. nia.
+  Qed.
+
+  Lemma tr_wots_last l t kp msgw sig :
+    In (KT, mkA l t T_WOTSPK kp 0 0, flat_map (wots_chain l t kp msgw sig) (seq 0 (p_len P))) (tr_wots l t kp msgw sig).
+  Proof. unfold tr_wots. apply in_or_app. right. left. reflexivity. Qed.
+
+  Lemma tr_wots_chain_incl l t kp msgw sig i : i < p_len P -> incl (tr_wots_chain l t kp msgw sig i) (tr_wots l t kp msgw sig).
+  Proof. intros Hi. unfold tr_wots. apply incl_appl. apply incl_flat_map_seq. lia. Qed.
+
+  (* equal WOTS+ public keys: equal T_len inputs (all chain ends) or a located collision *)
+  Lemma wots_ends l t kp msgw msgw' s s' : length s = p_len P * n -> length s' = p_len P * n ->
+    wotsPkFromSigS P HS l t kp msgw s pk = wotsPkFromSigS P HS l t kp msgw' s' pk ->
+    (forall i, i < p_len P -> wots_chain l t kp msgw s i = wots_chain l t kp msgw' s' i)
+    \/ CB (tr_wots l t kp msgw s) (tr_wots l t kp msgw' s') = true.
+  Proof.
+    intros Hs Hs' E. rewrite !wots_pk_call in E.
+    apply (call_inj HS pk KT _ _ _ (tr_wots l t kp msgw s) (tr_wots l t kp msgw' s')) in E;
+      try apply tr_wots_last.
+    2:{ rewrite !(flat_map_seq_length _ 0 (p_len P) n); auto using wots_chain_len. }
+    destruct E as [E|C]; [left|right; exact C].
+    intros i Hi. exact (flat_map_seq_inj _ _ n (p_len P) 0 (wots_chain_len l t kp msgw s Hs)
+                          (wots_chain_len l t kp msgw' s' Hs') E i ltac:(lia)).
+  Qed.
+
   Lemma wots_inj l t kp msgw s s' : length s = p_len P * n -> length s' = p_len P * n ->
-    wotsPkFromSigS P HS l t kp msgw s pk = wotsPkFromSigS P HS l t kp msgw s' pk -> s = s' \/ COLL.
+    wotsPkFromSigS P HS l t kp msgw s pk = wotsPkFromSigS P HS l t kp msgw s' pk ->
+    s = s' \/ CB (tr_wots l t kp msgw s) (tr_wots l t kp msgw s') = true.
   Proof.
     intros Hs Hs' E. destruct (bytes_eq_dec s s') as [e|ne]; [left; exact e|right].
     destruct (gchunks_diff n (p_len P) s s' Hs Hs' ne) as (i & Hi & Hd).
-    set (f := fun (z : bytes) (j : nat) => let mi := nth j msgw 0%N in
-                chainS HS l t kp (N.of_nat j) pk (chunk P j z) mi (N.to_nat (N.of_nat (p_w P) - 1 - mi))).
-    assert (Lc : forall z, length z = p_len P * n -> forall j, 0 <= j < 0 + p_len P -> length (f z j) = n).
-    { intros z Hz j Hj. unfold f. cbv zeta. apply chainS_length; [apply (hF_len _ _ OK)|].
-      apply gchunk_length. nia. }
-    unfold wotsPkFromSigS in E.
-    change (hTl HS pk (mkA l t T_WOTSPK kp 0 0) (flat_map (f s) (seq 0 (p_len P)))
-            = hTl HS pk (mkA l t T_WOTSPK kp 0 0) (flat_map (f s') (seq 0 (p_len P)))) in E.
-    apply hTl_inj in E.
-    2:{ rewrite !(flat_map_seq_length _ 0 (p_len P) n); auto. }
-    destruct E as [E|C]; [|exact C].
-    pose proof (flat_map_seq_inj (f s) (f s') n (p_len P) 0 (Lc s Hs) (Lc s' Hs') E i ltac:(lia)) as Ei.
-    unfold f in Ei.
-    cbv zeta in Ei. apply chainS_inj in Ei; try (apply gchunk_length; nia).
-    destruct Ei as [Ei|C]; [|exact C]. exfalso. apply Hd. exact Ei.
+    destruct (wots_ends l t kp msgw msgw s s' Hs Hs' E) as [Ends|C]; [|exact C].
+    specialize (Ends i Hi). unfold wots_chain in Ends. cbv zeta in Ends.
+    apply chainS_inj in Ends; try (apply gchunk_length; nia).
+    destruct Ends as [Ei|C]; [exfalso; apply Hd; exact Ei|].
+    eapply cb_mono; [| |exact C]; apply tr_wots_chain_incl; exact Hi.
   Qed.
 
-
-  (* ---------- what a WOTS+ message switch is: chain walking ----------
-     two WOTS+ signatures on (possibly different) digit strings leading to the same
-     public key: each value of one is the forward chain image of the corresponding
-     value of the other, from the smaller digit to the larger one (or a collision).
-     With the checksum (some digit goes down when another goes up) a forger
-     holding one of them needed a chain PREIMAGE for the other. *)
+  (* ---------- chain walking ---------- *)
   Lemma chain_ends l t kp c x y (m m' : N) (W : N) : length x = n -> length y = n -> (m <= m')%N -> (m' <= W)%N ->
     chainS HS l t kp c pk x m (N.to_nat (W - m)) = chainS HS l t kp c pk y m' (N.to_nat (W - m')) ->
-    y = chainS HS l t kp c pk x m (N.to_nat (m' - m)) \/ COLL.
+    y = chainS HS l t kp c pk x m (N.to_nat (m' - m))
+    \/ CB (tr_chain l t kp c x m (N.to_nat (W - m))) (tr_chain l t kp c y m' (N.to_nat (W - m'))) = true.
   Proof.
     intros Hx Hy Hm HW E.
-    replace (N.to_nat (W - m)) with (N.to_nat (m' - m) + N.to_nat (W - m')) in E by lia.
-    rewrite <- chainS_compose in E. replace (m + N.of_nat (N.to_nat (m' - m)))%N with m' in E by lia.
+    replace (N.to_nat (W - m)) with (N.to_nat (m' - m) + N.to_nat (W - m')) in * by lia.
+    rewrite <- chainS_compose in E. rewrite tr_chain_app.
+    replace (m + N.of_nat (N.to_nat (m' - m)))%N with m' in * by lia.
     apply chainS_inj in E; auto.
-    - destruct E as [E|C]; [left; symmetry; exact E|right; exact C].
+    - destruct E as [E|C]; [left; symmetry; exact E|right].
+      eapply cb_mono; [| |exact C]; [apply incl_appr, incl_refl|apply incl_refl].
     - apply chainS_length; [apply (hF_len _ _ OK)|exact Hx].
   Qed.
 
@@ -319,45 +445,39 @@ Section FORGERY.
     length s = p_len P * n -> length s' = p_len P * n ->
     (forall i, (nth i msgw 0 <= N.of_nat (p_w P) - 1)%N) -> (forall i, (nth i msgw' 0 <= N.of_nat (p_w P) - 1)%N) ->
     wotsPkFromSigS P HS l t kp msgw s pk = wotsPkFromSigS P HS l t kp msgw' s' pk ->
-    COLL \/ forall i, i < p_len P ->
+    CB (tr_wots l t kp msgw s) (tr_wots l t kp msgw' s') = true \/ forall i, i < p_len P ->
       let m := nth i msgw 0%N in let m' := nth i msgw' 0%N in
       ((m <= m')%N -> chunk P i s' = chainS HS l t kp (N.of_nat i) pk (chunk P i s) m (N.to_nat (m' - m))) /\
       ((m' <= m)%N -> chunk P i s = chainS HS l t kp (N.of_nat i) pk (chunk P i s') m' (N.to_nat (m - m'))).
   Proof.
     intros Hs Hs' Hd Hd' E.
-    set (f := fun (mw : list N) (z : bytes) (j : nat) => let mi := nth j mw 0%N in
-                chainS HS l t kp (N.of_nat j) pk (chunk P j z) mi (N.to_nat (N.of_nat (p_w P) - 1 - mi))).
-    assert (Lc : forall mw z, length z = p_len P * n -> forall j, 0 <= j < 0 + p_len P -> length (f mw z j) = n).
-    { intros mw z Hz j Hj. unfold f. cbv zeta. apply chainS_length; [apply (hF_len _ _ OK)|].
-      apply gchunk_length. nia. }
-    unfold wotsPkFromSigS in E.
-    change (hTl HS pk (mkA l t T_WOTSPK kp 0 0) (flat_map (f msgw s) (seq 0 (p_len P)))
-            = hTl HS pk (mkA l t T_WOTSPK kp 0 0) (flat_map (f msgw' s') (seq 0 (p_len P)))) in E.
-    apply hTl_inj in E.
-    2:{ rewrite !(flat_map_seq_length _ 0 (p_len P) n); auto. }
-    destruct E as [E|C]; [|left; exact C].
-    pose proof (flat_map_seq_inj (f msgw s) (f msgw' s') n (p_len P) 0 (Lc msgw s Hs) (Lc msgw' s' Hs') E) as Ei.
-    assert (G : forall cnt, cnt <= p_len P -> COLL \/ forall i, i < cnt ->
+    destruct (wots_ends l t kp msgw msgw' s s' Hs Hs' E) as [Ends|C]; [|left; exact C].
+    assert (Sym : forall T1 T2, cb HS pk T2 T1 = true -> cb HS pk T1 T2 = true).
+    { intros T1 T2 H. destruct (cb_sound HS pk _ _ H) as (k & ad & x & y & I1 & I2 & Hne & L & _ & Eo).
+      apply (cb_intro HS pk k ad y x); auto. }
+    assert (G : forall cnt, cnt <= p_len P -> CB (tr_wots l t kp msgw s) (tr_wots l t kp msgw' s') = true \/ forall i, i < cnt ->
       let m := nth i msgw 0%N in let m' := nth i msgw' 0%N in
       ((m <= m')%N -> chunk P i s' = chainS HS l t kp (N.of_nat i) pk (chunk P i s) m (N.to_nat (m' - m))) /\
       ((m' <= m)%N -> chunk P i s = chainS HS l t kp (N.of_nat i) pk (chunk P i s') m' (N.to_nat (m - m')))).
     { induction cnt as [|cnt IH]; intros Hc; [right; intros; lia|].
       destruct (IH ltac:(lia)) as [C|IHa]; [left; exact C|].
-      specialize (Ei cnt ltac:(lia)). unfold f in Ei. cbv zeta in Ei.
+      pose proof (Ends cnt ltac:(lia)) as Ei. unfold wots_chain in Ei. cbv zeta in Ei.
       assert (Lx : length (chunk P cnt s) = n) by (apply gchunk_length; nia).
       assert (Lx' : length (chunk P cnt s') = n) by (apply gchunk_length; nia).
-      assert (A1 : COLL \/ ((nth cnt msgw 0%N <= nth cnt msgw' 0%N)%N ->
+      assert (A1 : CB (tr_wots l t kp msgw s) (tr_wots l t kp msgw' s') = true \/ ((nth cnt msgw 0%N <= nth cnt msgw' 0%N)%N ->
                  chunk P cnt s' = chainS HS l t kp (N.of_nat cnt) pk (chunk P cnt s) (nth cnt msgw 0%N)
                                     (N.to_nat (nth cnt msgw' 0%N - nth cnt msgw 0%N)))).
       { destruct (N.le_gt_cases (nth cnt msgw 0%N) (nth cnt msgw' 0%N)) as [Le|Gt]; [|right; intros; lia].
         destruct (chain_ends l t kp (N.of_nat cnt) _ _ _ _ (N.of_nat (p_w P) - 1)%N Lx Lx' Le (Hd' cnt) Ei) as [R|C];
-          [right; intros _; exact R|left; exact C]. }
-      assert (A2 : COLL \/ ((nth cnt msgw' 0%N <= nth cnt msgw 0%N)%N ->
+          [right; intros _; exact R|left].
+        eapply cb_mono; [| |exact C]; apply tr_wots_chain_incl; lia. }
+      assert (A2 : CB (tr_wots l t kp msgw s) (tr_wots l t kp msgw' s') = true \/ ((nth cnt msgw' 0%N <= nth cnt msgw 0%N)%N ->
                  chunk P cnt s = chainS HS l t kp (N.of_nat cnt) pk (chunk P cnt s') (nth cnt msgw' 0%N)
                                     (N.to_nat (nth cnt msgw 0%N - nth cnt msgw' 0%N)))).
       { destruct (N.le_gt_cases (nth cnt msgw' 0%N) (nth cnt msgw 0%N)) as [Le|Gt]; [|right; intros; lia].
         destruct (chain_ends l t kp (N.of_nat cnt) _ _ _ _ (N.of_nat (p_w P) - 1)%N Lx' Lx Le (Hd cnt) (eq_sym Ei)) as [R|C];
-          [right; intros _; exact R|left; exact C]. }
+          [right; intros _; exact R|left].
+        apply Sym. eapply cb_mono; [| |exact C]; apply tr_wots_chain_incl; lia. }
       destruct A1 as [C|A1]; [left; exact C|]. destruct A2 as [C|A2]; [left; exact C|].
       right. intros i Hi. destruct (Nat.eq_dec i cnt) as [->|Hne]; [cbv zeta; split; assumption|apply IHa; lia]. }
     exact (G (p_len P) (le_n _)).
@@ -371,29 +491,6 @@ Section FORGERY.
     destruct (N.eqb _ 0); apply (hH_len _ _ OK).
   Qed.
 
-  Lemma climb_inj mkad tidx idx auth auth' : forall cnt k node node',
-    length node = n -> length node' = n ->
-    (forall j, k <= j < k + cnt -> length (chunk P j auth) = n /\ length (chunk P j auth') = n) ->
-    climbS P HS mkad cnt k tidx idx auth pk node = climbS P HS mkad cnt k tidx idx auth' pk node' ->
-    (node = node' /\ forall j, k <= j < k + cnt -> chunk P j auth = chunk P j auth') \/ COLL.
-  Proof.
-    induction cnt as [|cnt IH]; intros k node node' Hn Hn' Hc E.
-    - left. split; [exact E|intros; lia].
-    - cbn [climbS] in E. destruct (Hc k ltac:(lia)) as [Lk Lk'].
-      apply IH in E.
-      2,3: destruct (N.eqb _ 0); apply (hH_len _ _ OK).
-      2: intros j Hj; apply Hc; lia.
-      destruct E as [[E Rest]|C]; [|right; exact C].
-      assert (X : (node = node' /\ chunk P k auth = chunk P k auth') \/ COLL).
-      { destruct (N.eqb (N.land (N.shiftr idx (N.of_nat k)) 1) 0).
-        - apply hH_inj in E; [|rewrite !app_length; lia]. destruct E as [E|C]; [left|right; exact C].
-          apply app_inv_length in E; [exact E|lia].
-        - apply hH_inj in E; [|rewrite !app_length; lia]. destruct E as [E|C]; [left|right; exact C].
-          apply app_inv_length in E; [tauto|lia]. }
-      destruct X as [[X1 X2]|C]; [left|right; exact C].
-      split; [exact X1|]. intros j Hj. destruct (Nat.eq_dec j k) as [->|Hne]; [exact X2|apply Rest; lia].
-  Qed.
-
   Lemma climbS_wfb (WB : hashes_wfb HS) mkad : forall cnt k tidx idx auth node, wfb node ->
     wfb (climbS P HS mkad cnt k tidx idx auth pk node).
   Proof.
@@ -401,10 +498,151 @@ Section FORGERY.
     destruct (N.eqb _ 0); apply (hH_wfb _ WB).
   Qed.
 
+  (* the H call of one climb step: its address and its input *)
+  Definition climb_ad (mkad : N -> N -> address) (tidx : N) (k : nat) : address :=
+    mkad (N.of_nat k + 1)%N (N.shiftr tidx (N.of_nat k + 1)).
+  Definition climb_in (idx : N) (auth : bytes) (k : nat) (node : bytes) : bytes :=
+    if N.eqb (N.land (N.shiftr idx (N.of_nat k)) 1) 0 then node ++ chunk P k auth else chunk P k auth ++ node.
+
+  Lemma climbS_step mkad c k tidx idx auth node :
+    climbS P HS mkad (S c) k tidx idx auth pk node
+    = climbS P HS mkad c (S k) tidx idx auth pk (hH HS pk (climb_ad mkad tidx k) (climb_in idx auth k node)).
+  Proof. cbn [climbS]. unfold climb_ad, climb_in. destruct (N.eqb _ 0); reflexivity. Qed.
+
+  Fixpoint tr_climb (mkad : N -> N -> address) (cnt k : nat) (tidx idx : N) (auth node : bytes) : list call :=
+    match cnt with
+    | O => []
+    | S c => (KH, climb_ad mkad tidx k, climb_in idx auth k node)
+             :: tr_climb mkad c (S k) tidx idx auth (hH HS pk (climb_ad mkad tidx k) (climb_in idx auth k node))
+    end.
+
+  Lemma climb_in_inj idx auth auth' k node node' : length node = length node' ->
+    length (chunk P k auth) = length (chunk P k auth') ->
+    climb_in idx auth k node = climb_in idx auth' k node' -> node = node' /\ chunk P k auth = chunk P k auth'.
+  Proof.
+    intros L Lc E. unfold climb_in in E. destruct (N.eqb _ 0).
+    - apply app_inv_length in E; [exact E|exact L].
+    - apply app_inv_length in E; [tauto|exact Lc].
+  Qed.
+
+  Lemma climb_in_len idx auth k node : length (climb_in idx auth k node) = length node + length (chunk P k auth).
+  Proof. unfold climb_in. destruct (N.eqb _ 0); rewrite app_length; lia. Qed.
+
+  Lemma climb_inj mkad tidx idx auth auth' : forall cnt k node node',
+    length node = n -> length node' = n ->
+    (forall j, k <= j < k + cnt -> length (chunk P j auth) = n /\ length (chunk P j auth') = n) ->
+    climbS P HS mkad cnt k tidx idx auth pk node = climbS P HS mkad cnt k tidx idx auth' pk node' ->
+    (node = node' /\ forall j, k <= j < k + cnt -> chunk P j auth = chunk P j auth')
+    \/ CB (tr_climb mkad cnt k tidx idx auth node) (tr_climb mkad cnt k tidx idx auth' node') = true.
+  Proof.
+    induction cnt as [|cnt IH]; intros k node node' Hn Hn' Hc E.
+    - left. split; [exact E|intros; lia].
+    - rewrite !climbS_step in E. cbn [tr_climb]. destruct (Hc k ltac:(lia)) as [Lk Lk'].
+      apply IH in E; try apply (hH_len _ _ OK); [|intros j Hj; apply Hc; lia].
+      destruct E as [[E Rest]|C]; [|right; eapply cb_mono; [| |exact C]; apply incl_tl, incl_refl].
+      destruct (call_inj HS pk KH (climb_ad mkad tidx k) (climb_in idx auth k node) (climb_in idx auth' k node')
+                  (tr_climb mkad (S cnt) k tidx idx auth node) (tr_climb mkad (S cnt) k tidx idx auth' node')
+                  ltac:(left; reflexivity) ltac:(left; reflexivity) E ltac:(rewrite !climb_in_len; lia)) as [E2|C];
+        [left|right; exact C]. clear E. rename E2 into E.
+      apply climb_in_inj in E; try lia. destruct E as [X1 X2].
+      split; [exact X1|]. intros j Hj. destruct (Nat.eq_dec j k) as [->|Hne]; [exact X2|apply Rest; lia].
+  Qed.
+
+  (* top-down view of a climb *)
+  Lemma climbS_snoc mkad tidx idx auth : forall c k node,
+    climbS P HS mkad (S c) k tidx idx auth pk node
+    = hH HS pk (climb_ad mkad tidx (k + c)) (climb_in idx auth (k + c) (climbS P HS mkad c k tidx idx auth pk node)).
+  Proof.
+    induction c as [|c IH]; intros k node.
+    - rewrite climbS_step. cbn [climbS]. rewrite Nat.add_0_r. reflexivity.
+    - rewrite climbS_step, IH. replace (S k + c) with (k + S c) by lia. rewrite <- climbS_step. reflexivity.
+  Qed.
+
+  Lemma tr_climb_snoc mkad tidx idx auth : forall c k node,
+    tr_climb mkad (S c) k tidx idx auth node
+    = tr_climb mkad c k tidx idx auth node
+      ++ [(KH, climb_ad mkad tidx (k + c), climb_in idx auth (k + c) (climbS P HS mkad c k tidx idx auth pk node))].
+  Proof.
+    induction c as [|c IH]; intros k node.
+    - cbn [tr_climb climbS app]. rewrite Nat.add_0_r. reflexivity.
+    - change (tr_climb mkad (S (S c)) k tidx idx auth node)
+        with ((KH, climb_ad mkad tidx k, climb_in idx auth k node)
+              :: tr_climb mkad (S c) (S k) tidx idx auth (hH HS pk (climb_ad mkad tidx k) (climb_in idx auth k node))).
+      rewrite IH. replace (S k + c) with (k + S c) by lia. rewrite <- climbS_step. reflexivity.
+  Qed.
+
+  Lemma shiftr_split x c : N.shiftr x (N.of_nat c) = (2 * N.shiftr x (N.of_nat c + 1) + N.land (N.shiftr x (N.of_nat c)) 1)%N.
+  Proof. rewrite shiftr_succ, shiftr1_div, land1_mod. apply N.div_mod. discriminate. Qed.
+
+  (* two openings of one Merkle tree (cnt levels) at different leaves, same root: they cross *)
+  Lemma merge mkad : forall cnt tidx1 idx1 auth1 node1 tidx2 idx2 auth2 node2,
+    length node1 = n -> length node2 = n ->
+    (forall j, j < cnt -> length (chunk P j auth1) = n /\ length (chunk P j auth2) = n) ->
+    (forall j, j < cnt -> N.land (N.shiftr idx1 (N.of_nat j)) 1 = N.land (N.shiftr tidx1 (N.of_nat j)) 1) ->
+    (forall j, j < cnt -> N.land (N.shiftr idx2 (N.of_nat j)) 1 = N.land (N.shiftr tidx2 (N.of_nat j)) 1) ->
+    N.shiftr tidx1 (N.of_nat cnt) = N.shiftr tidx2 (N.of_nat cnt) -> tidx1 <> tidx2 ->
+    climbS P HS mkad cnt 0 tidx1 idx1 auth1 pk node1 = climbS P HS mkad cnt 0 tidx2 idx2 auth2 pk node2 ->
+    CB (tr_climb mkad cnt 0 tidx1 idx1 auth1 node1) (tr_climb mkad cnt 0 tidx2 idx2 auth2 node2) = true
+    \/ exists kk, kk < cnt /\
+      N.land (N.shiftr tidx1 (N.of_nat kk)) 1 <> N.land (N.shiftr tidx2 (N.of_nat kk)) 1 /\
+      climbS P HS mkad kk 0 tidx1 idx1 auth1 pk node1 = chunk P kk auth2 /\
+      climbS P HS mkad kk 0 tidx2 idx2 auth2 pk node2 = chunk P kk auth1 /\
+      forall j, kk < j < cnt -> chunk P j auth1 = chunk P j auth2.
+  Proof.
+    induction cnt as [|cnt IH]; intros tidx1 idx1 auth1 node1 tidx2 idx2 auth2 node2 L1 L2 Lc B1 B2 Hs Hne E.
+    - exfalso. apply Hne. change (N.of_nat 0) with 0%N in Hs. rewrite !N.shiftr_0_r in Hs. exact Hs.
+    - rewrite !climbS_snoc in E. rewrite !tr_climb_snoc. cbn [Nat.add] in *.
+      set (m1 := climbS P HS mkad cnt 0 tidx1 idx1 auth1 pk node1) in *.
+      set (m2 := climbS P HS mkad cnt 0 tidx2 idx2 auth2 pk node2) in *.
+      assert (Lm1 : length m1 = n) by (apply climbS_length; exact L1).
+      assert (Lm2 : length m2 = n) by (apply climbS_length; exact L2).
+      destruct (Lc cnt ltac:(lia)) as [Lc1 Lc2].
+      assert (Ead : climb_ad mkad tidx2 cnt = climb_ad mkad tidx1 cnt).
+      { unfold climb_ad. replace (N.of_nat (S cnt)) with (N.of_nat cnt + 1)%N in Hs by lia. rewrite Hs. reflexivity. }
+      rewrite Ead in *.
+      match goal with |- cb HS pk ?T1 ?T2 = true \/ _ =>
+        destruct (call_inj HS pk KH (climb_ad mkad tidx1 cnt) (climb_in idx1 auth1 cnt m1) (climb_in idx2 auth2 cnt m2) T1 T2
+                    ltac:(apply in_or_app; right; left; reflexivity) ltac:(apply in_or_app; right; left; reflexivity)
+                    E ltac:(rewrite !climb_in_len; lia)) as [E2|C]; [|left; exact C] end.
+      clear E. rename E2 into E.
+      unfold climb_in in E. rewrite (B1 cnt ltac:(lia)), (B2 cnt ltac:(lia)) in E.
+      set (b1 := N.land (N.shiftr tidx1 (N.of_nat cnt)) 1) in *.
+      set (b2 := N.land (N.shiftr tidx2 (N.of_nat cnt)) 1) in *.
+      destruct (N.eq_dec b1 b2) as [Eb|Nb].
+      + assert (Same : m1 = m2 /\ chunk P cnt auth1 = chunk P cnt auth2).
+        { rewrite <- Eb in E. destruct (N.eqb b1 0).
+          - apply app_inv_length in E; [exact E|lia].
+          - apply app_inv_length in E; [tauto|lia]. }
+        destruct Same as [Em Ec].
+        assert (Hs' : N.shiftr tidx1 (N.of_nat cnt) = N.shiftr tidx2 (N.of_nat cnt)).
+        { rewrite (shiftr_split tidx1 cnt), (shiftr_split tidx2 cnt). fold b1 b2.
+          replace (N.of_nat (S cnt)) with (N.of_nat cnt + 1)%N in Hs by lia. rewrite Hs, Eb. reflexivity. }
+        destruct (IH tidx1 idx1 auth1 node1 tidx2 idx2 auth2 node2 L1 L2
+                    ltac:(intros; apply Lc; lia) ltac:(intros; apply B1; lia) ltac:(intros; apply B2; lia) Hs' Hne Em)
+          as [C|(kk & Hk & Hb & X1 & X2 & Up)].
+        * left. eapply cb_mono; [| |exact C]; apply incl_appl, incl_refl.
+        * right. exists kk. split; [lia|]. split; [exact Hb|]. split; [exact X1|]. split; [exact X2|].
+          intros j Hj. destruct (Nat.eq_dec j cnt) as [->|Hn]; [exact Ec|apply Up; lia].
+      + right. assert (Cross : m1 = chunk P cnt auth2 /\ m2 = chunk P cnt auth1).
+        { destruct (N.eqb_spec b1 0) as [Z1|Z1]; destruct (N.eqb_spec b2 0) as [Z2|Z2]; try (exfalso; apply Nb; congruence).
+          - apply app_inv_length in E; [|lia]. destruct E as [E1 E2]. split; [exact E1|symmetry; exact E2].
+          - apply app_inv_length in E; [|lia]. destruct E as [E1 E2]. split; [exact E2|symmetry; exact E1].
+          - exfalso. apply Nb. unfold b1, b2 in *. rewrite !land1_mod in *.
+            pose proof (N.mod_lt (N.shiftr tidx1 (N.of_nat cnt)) 2 ltac:(discriminate)).
+            pose proof (N.mod_lt (N.shiftr tidx2 (N.of_nat cnt)) 2 ltac:(discriminate)). lia. }
+        destruct Cross as [X1 X2].
+        exists cnt. split; [lia|]. split; [exact Nb|]. split; [exact X1|]. split; [exact X2|]. intros; lia.
+  Qed.
+
   (* ---------- one XMSS layer ---------- *)
   Notation sz := (xmssSigSize P).
   Hypothesis WB : hashes_wfb HS.
   Hypothesis DW : digits_wf P.
+
+  Definition tr_xmss (l t idx : N) (X M : bytes) : list call :=
+    tr_wots l t idx (wotsChecksum P M) (firstn (p_len P * n) X)
+    ++ tr_climb (fun h i => mkA l t T_TREE 0 h i) (p_hp P) 0 idx idx (skipn (p_len P * n) X)
+         (wotsPkFromSigS P HS l t idx (wotsChecksum P M) (firstn (p_len P * n) X) pk).
 
   Lemma xmss_out_len l t idx X M : length (xmssPkFromSigS P HS l t idx X M pk) = n.
   Proof. unfold xmssPkFromSigS. apply climbS_length. apply (hTl_len _ _ OK). Qed.
@@ -420,7 +658,7 @@ Section FORGERY.
     destruct E as [E _]. apply (base2b_inj M M' (p_lgw P) (p_len1 P)); auto; lia.
   Qed.
 
-  (* THE LOCATED EVENT at one layer: the WOTS+ parts of X and X' lead to the same WOTS+ public
+  (* THE LOCATED SWITCH at one layer: the WOTS+ parts of X and X' lead to the same WOTS+ public
      key at address (l, t, kp) although the digit strings of the signed values M, M' differ *)
   Definition switch_at (l t kp : N) (M M' X X' : bytes) : bool :=
     negb (beq (wotsChecksum P M) (wotsChecksum P M')) &&
@@ -430,7 +668,8 @@ Section FORGERY.
   Lemma xmss_layer l t idx X X' M M' : length X = sz -> length X' = sz ->
     wfb M -> wfb M' -> length M = n -> length M' = n ->
     xmssPkFromSigS P HS l t idx X M pk = xmssPkFromSigS P HS l t idx X' M' pk ->
-    (M = M' /\ X = X') \/ switch_at l t idx M M' X X' = true \/ COLL.
+    (M = M' /\ X = X') \/ switch_at l t idx M M' X X' = true
+    \/ CB (tr_xmss l t idx X M) (tr_xmss l t idx X' M') = true.
   Proof.
     intros HX HX' WM WM' LM LM' E. unfold xmssPkFromSigS in E. unfold xmssSigSize in HX, HX'.
     assert (La : forall Z, length Z = (p_hp P + p_len P) * n -> forall j, 0 <= j < 0 + p_hp P ->
@@ -438,18 +677,30 @@ Section FORGERY.
     { intros Z HZ j Hj. apply gchunk_length. rewrite skipn_length. nia. }
     apply climb_inj in E; try apply (hTl_len _ _ OK).
     2:{ intros j Hj. split; [apply (La X)|apply (La X')]; auto. }
-    destruct E as [[Ew Ea]|C]; [|right; right; exact C].
+    destruct E as [[Ew Ea]|C].
+    2:{ right; right. unfold tr_xmss. eapply cb_mono; [| |exact C]; apply incl_appr, incl_refl. }
     assert (Eauth : skipn (p_len P * n) X = skipn (p_len P * n) X').
     { apply (gchunks_eq n (p_hp P)); try (rewrite skipn_length; lia). intros i Hi. apply Ea. lia. }
     destruct (beq (wotsChecksum P M) (wotsChecksum P M')) eqn:Eb.
     - apply beq_eq in Eb. apply digits_inj in Eb; auto. subst M'.
       apply wots_inj in Ew; try (rewrite firstn_length; lia).
-      destruct Ew as [Ew|C]; [left|right; right; exact C].
-      split; [reflexivity|]. rewrite <- (firstn_skipn (p_len P * n) X), <- (firstn_skipn (p_len P * n) X'). congruence.
+      destruct Ew as [Ew|C].
+      + left. split; [reflexivity|].
+        rewrite <- (firstn_skipn (p_len P * n) X), <- (firstn_skipn (p_len P * n) X'). congruence.
+      + right; right. unfold tr_xmss. eapply cb_mono; [| |exact C]; apply incl_appl, incl_refl.
     - right. left. unfold switch_at. rewrite Eb, Ew, beq_refl. reflexivity.
   Qed.
 
   (* ---------- the hypertree: layers j .. j+cnt-1 (mirrors htVerifyS_loop) ---------- *)
+  Fixpoint tr_loop (cnt j : nat) (sH : bytes) (it : N) (node : bytes) : list call :=
+    match cnt with
+    | O => []
+    | S c =>
+      let X := gchunk sz j sH in
+      tr_xmss (N.of_nat j) (htUp P it) (htLeaf P it) X node
+      ++ tr_loop c (S j) sH (htUp P it) (xmssPkFromSigS P HS (N.of_nat j) (htUp P it) (htLeaf P it) X node pk)
+    end.
+
   Fixpoint switch_in_loop (cnt j : nat) (sH sH' : bytes) (it : N) (node node' : bytes) : bool :=
     match cnt with
     | O => false
@@ -467,18 +718,21 @@ Section FORGERY.
     wfb node -> wfb node' -> length node = n -> length node' = n ->
     htVerifyS_loop P HS cnt j sigHT pk it node = htVerifyS_loop P HS cnt j sigHT' pk it node' ->
     (node = node' /\ forall i, j <= i < j + cnt -> gchunk sz i sigHT = gchunk sz i sigHT')
-    \/ switch_in_loop cnt j sigHT sigHT' it node node' = true \/ COLL.
+    \/ switch_in_loop cnt j sigHT sigHT' it node node' = true
+    \/ CB (tr_loop cnt j sigHT it node) (tr_loop cnt j sigHT' it node') = true.
   Proof.
     intros HL HL'. induction cnt as [|cnt IH]; intros j it node node' Hj W W' L L' E.
     - left. split; [exact E|intros; lia].
-    - cbn [htVerifyS_loop] in E. cbn [switch_in_loop].
+    - cbn [htVerifyS_loop] in E. cbn [switch_in_loop tr_loop].
       apply IH in E; try lia; try apply xmss_out_wfb; try apply xmss_out_len.
-      destruct E as [[E Rest]|[Sw|C]]; [|right; left|right; right; exact C].
+      destruct E as [[E Rest]|[Sw|C]].
       + apply xmss_layer in E; auto; try (apply gchunk_length; nia).
-        destruct E as [[E1 E2]|[Sw|C]]; [left|right; left|right; right; exact C].
+        destruct E as [[E1 E2]|[Sw|C]]; [left|right; left|right; right].
         * split; [exact E1|]. intros i Hi. destruct (Nat.eq_dec i j) as [->|Hne]; [exact E2|apply Rest; lia].
         * unfold gchunk. rewrite Sw. reflexivity.
-      + unfold gchunk in *. rewrite Sw. apply orb_true_r.
+        * eapply cb_mono; [| |exact C]; apply incl_appl, incl_refl.
+      + right; left. unfold gchunk in *. rewrite Sw. apply orb_true_r.
+      + right; right. eapply cb_mono; [| |exact C]; apply incl_appr, incl_refl.
   Qed.
 
   (* the whole hypertree part, layer 0 first *)
@@ -487,122 +741,321 @@ Section FORGERY.
     switch_in_loop (p_d P - 1) 1 sH sH' it
       (xmssPkFromSigS P HS 0 it il (gchunk sz 0 sH) M0 pk) (xmssPkFromSigS P HS 0 it il (gchunk sz 0 sH') M0' pk).
 
-  (* ---------- a located switch is chain walking, in BOTH directions ----------
-     at some chain i the value in X' is the image of the value in X under m'_i - m_i >= 1 chain
-     steps, and at some chain i' the value in X is the image of the value in X' under
-     m_i' - m'_i' >= 1 steps (the checksum digits make the digit strings an antichain):
-     neither WOTS+ signature can be derived from the other by walking chains forward only *)
+  Definition tr_ht (sH : bytes) (it il : N) (M0 : bytes) : list call :=
+    tr_xmss 0 it il (gchunk sz 0 sH) M0
+    ++ tr_loop (p_d P - 1) 1 sH it (xmssPkFromSigS P HS 0 it il (gchunk sz 0 sH) M0 pk).
+
+  (* the hypertree part of two accepted signatures *)
+  Lemma ht_inj sH sH' it il M0 M0' root : length sH = p_d P * sz -> length sH' = p_d P * sz -> 1 <= p_d P ->
+    wfb M0 -> wfb M0' -> length M0 = n -> length M0' = n ->
+    htVerifyS P HS M0 sH pk it il root = true -> htVerifyS P HS M0' sH' pk it il root = true ->
+    (M0 = M0' /\ sH = sH') \/ ht_switch sH sH' it il M0 M0' = true
+    \/ CB (tr_ht sH it il M0) (tr_ht sH' it il M0') = true.
+  Proof.
+    intros LH LH' Hd WM WM' LM LM' V V'. unfold htVerifyS in V, V'. apply beq_eq in V, V'. rewrite <- V' in V. clear V'.
+    unfold ht_switch, tr_ht.
+    change (firstn sz sH) with (gchunk sz 0 sH) in V. change (firstn sz sH') with (gchunk sz 0 sH') in V.
+    apply (ht_loop_inj sH sH' (p_d P) LH LH') in V; try lia; try apply xmss_out_wfb; try apply xmss_out_len.
+    destruct V as [[V Rest]|[Sw|C]].
+    - apply xmss_layer in V; auto; try (apply gchunk_length; nia).
+      destruct V as [[V0 B0]|[Sw|C]]; [left|right; left; rewrite Sw; reflexivity|right; right].
+      + split; [exact V0|]. apply (gchunks_eq sz (p_d P)); auto. intros i Hi.
+        destruct (Nat.eq_dec i 0) as [->|Hne]; [exact B0|apply Rest; lia].
+      + eapply cb_mono; [| |exact C]; apply incl_appl, incl_refl.
+    - right; left. rewrite Sw. apply orb_true_r.
+    - right; right. eapply cb_mono; [| |exact C]; apply incl_appr, incl_refl.
+  Qed.
+
+  (* ---------- locating the switch: the layer and the values signed there ---------- *)
+  Fixpoint switch_find_loop (cnt j : nat) (sH sH' : bytes) (it : N) (node node' : bytes)
+    : option (nat * N * N * N * bytes * bytes) :=
+    match cnt with
+    | O => None
+    | S c =>
+      let X := gchunk sz j sH in
+      let X' := gchunk sz j sH' in
+      if switch_at (N.of_nat j) (htUp P it) (htLeaf P it) node node' X X'
+      then Some (j, N.of_nat j, htUp P it, htLeaf P it, node, node')
+      else switch_find_loop c (S j) sH sH' (htUp P it)
+             (xmssPkFromSigS P HS (N.of_nat j) (htUp P it) (htLeaf P it) X node pk)
+             (xmssPkFromSigS P HS (N.of_nat j) (htUp P it) (htLeaf P it) X' node' pk)
+    end.
+
+  Definition ht_switch_find (sH sH' : bytes) (it il : N) (M0 M0' : bytes) : option (nat * N * N * N * bytes * bytes) :=
+    if switch_at 0 it il M0 M0' (gchunk sz 0 sH) (gchunk sz 0 sH') then Some (0, 0%N, it, il, M0, M0')
+    else switch_find_loop (p_d P - 1) 1 sH sH' it
+           (xmssPkFromSigS P HS 0 it il (gchunk sz 0 sH) M0 pk) (xmssPkFromSigS P HS 0 it il (gchunk sz 0 sH') M0' pk).
+
+  Lemma switch_find_loop_spec sH sH' : forall cnt j it node node',
+    match switch_find_loop cnt j sH sH' it node node' with
+    | None => switch_in_loop cnt j sH sH' it node node' = false
+    | Some (i, l, t, kp, M, M') =>
+      switch_in_loop cnt j sH sH' it node node' = true /\ j <= i < j + cnt /\
+      switch_at l t kp M M' (gchunk sz i sH) (gchunk sz i sH') = true /\
+      incl (tr_xmss l t kp (gchunk sz i sH) M) (tr_loop cnt j sH it node) /\
+      incl (tr_xmss l t kp (gchunk sz i sH') M') (tr_loop cnt j sH' it node')
+    end.
+  Proof.
+    induction cnt as [|cnt IH]; intros j it node node'; cbn [switch_find_loop switch_in_loop tr_loop]; [reflexivity|].
+    destruct (switch_at (N.of_nat j) (htUp P it) (htLeaf P it) node node' (gchunk sz j sH) (gchunk sz j sH')) eqn:Sw.
+    - cbn [orb]. repeat split; try lia; try exact Sw; apply incl_appl, incl_refl.
+    - cbn [orb]. specialize (IH (S j) (htUp P it)
+        (xmssPkFromSigS P HS (N.of_nat j) (htUp P it) (htLeaf P it) (gchunk sz j sH) node pk)
+        (xmssPkFromSigS P HS (N.of_nat j) (htUp P it) (htLeaf P it) (gchunk sz j sH') node' pk)).
+      destruct (switch_find_loop cnt (S j) sH sH' (htUp P it) _ _) as [[[[[[i l] t] kp] M] M']|]; [|exact IH].
+      destruct IH as (A & B & C & D1 & D2). repeat split; auto; try lia; apply incl_appr; assumption.
+  Qed.
+
+  Lemma ht_switch_find_spec sH sH' it il M0 M0' :
+    match ht_switch_find sH sH' it il M0 M0' with
+    | None => ht_switch sH sH' it il M0 M0' = false
+    | Some (i, l, t, kp, M, M') =>
+      ht_switch sH sH' it il M0 M0' = true /\ i < 1 + (p_d P - 1) /\
+      switch_at l t kp M M' (gchunk sz i sH) (gchunk sz i sH') = true /\
+      incl (tr_xmss l t kp (gchunk sz i sH) M) (tr_ht sH it il M0) /\
+      incl (tr_xmss l t kp (gchunk sz i sH') M') (tr_ht sH' it il M0')
+    end.
+  Proof.
+    unfold ht_switch_find, ht_switch, tr_ht.
+    destruct (switch_at 0 it il M0 M0' (gchunk sz 0 sH) (gchunk sz 0 sH')) eqn:Sw.
+    - cbn [orb]. repeat split; try lia; try exact Sw; apply incl_appl, incl_refl.
+    - cbn [orb]. pose proof (switch_find_loop_spec sH sH' (p_d P - 1) 1 it
+        (xmssPkFromSigS P HS 0 it il (gchunk sz 0 sH) M0 pk) (xmssPkFromSigS P HS 0 it il (gchunk sz 0 sH') M0' pk)) as S.
+      destruct (switch_find_loop (p_d P - 1) 1 sH sH' it _ _) as [[[[[[i l] t] kp] M] M']|]; [|exact S].
+      destruct S as (A & B & C & D1 & D2). repeat split; auto; try lia; apply incl_appr; assumption.
+  Qed.
+
+  (* the first chain where the first digit string is below the second *)
+  Fixpoint first_lt (d d' : list N) : option nat :=
+    match d, d' with
+    | x :: r, y :: r' => if N.ltb x y then Some 0 else option_map S (first_lt r r')
+    | _, _ => None
+    end.
+
+  Lemma first_lt_some : forall d d' i, first_lt d d' = Some i -> i < length d /\ i < length d' /\ (nth i d 0 < nth i d' 0)%N.
+  Proof.
+    induction d as [|x r IH]; intros d' i H; destruct d' as [|y r']; try discriminate. cbn [first_lt] in H.
+    destruct (N.ltb_spec x y) as [L|L].
+    - inversion H; subst. simpl. split; [lia|split; [lia|exact L]].
+    - destruct (first_lt r r') as [k|] eqn:E; [|discriminate]. inversion H; subst.
+      destruct (IH r' k E) as (A & B & C). simpl. split; [lia|split; [lia|exact C]].
+  Qed.
+
+  Lemma first_lt_exists : forall d d' i, i < length d -> i < length d' -> (nth i d 0 < nth i d' 0)%N ->
+    exists k, first_lt d d' = Some k.
+  Proof.
+    induction d as [|x r IH]; intros d' i H H' L; destruct d' as [|y r']; simpl in H, H'; try lia. cbn [first_lt].
+    destruct (N.ltb_spec x y) as [Lt|Ge]; [eexists; reflexivity|].
+    destruct i as [|i]; [simpl in L; lia|].
+    destruct (IH r' i ltac:(lia) ltac:(lia) L) as [k E]. rewrite E. eexists; reflexivity.
+  Qed.
+
+  (* a located switch is chain walking IN BOTH DIRECTIONS, at the chains first_lt computes:
+     at chain i the value in X' is the image of the value in X under m'_i - m_i >= 1 chain steps,
+     at chain i' the value in X is the image of the value in X' under m_i' - m'_i' >= 1 steps
+     (the digit strings form an antichain), or the two WOTS+ verifications collide *)
+  Definition walks (l t kp : N) (M M' X X' : bytes) (i i' : nat) : Prop :=
+    let d := wotsChecksum P M in let d' := wotsChecksum P M' in
+    (nth i d 0 < nth i d' 0)%N /\
+    chunk P i X' = chainS HS l t kp (N.of_nat i) pk (chunk P i X) (nth i d 0%N) (N.to_nat (nth i d' 0%N - nth i d 0%N)) /\
+    (nth i' d' 0 < nth i' d 0)%N /\
+    chunk P i' X = chainS HS l t kp (N.of_nat i') pk (chunk P i' X') (nth i' d' 0%N) (N.to_nat (nth i' d 0%N - nth i' d' 0%N)).
+
   Lemma switch_at_walk l t kp M M' X X' : length X = sz -> length X' = sz ->
     switch_at l t kp M M' X X' = true ->
-    COLL \/
-    ((exists i, i < p_len P /\
-        let m := nth i (wotsChecksum P M) 0%N in let m' := nth i (wotsChecksum P M') 0%N in
-        (m < m')%N /\ chunk P i X' = chainS HS l t kp (N.of_nat i) pk (chunk P i X) m (N.to_nat (m' - m))) /\
-     (exists i, i < p_len P /\
-        let m := nth i (wotsChecksum P M) 0%N in let m' := nth i (wotsChecksum P M') 0%N in
-        (m' < m)%N /\ chunk P i X = chainS HS l t kp (N.of_nat i) pk (chunk P i X') m' (N.to_nat (m - m')))).
+    exists i i', first_lt (wotsChecksum P M) (wotsChecksum P M') = Some i /\
+                 first_lt (wotsChecksum P M') (wotsChecksum P M) = Some i' /\ i < p_len P /\ i' < p_len P /\
+      (walks l t kp M M' X X' i i' \/ CB (tr_xmss l t kp X M) (tr_xmss l t kp X' M') = true).
   Proof.
     intros HX HX' Sw. unfold switch_at in Sw. apply andb_prop in Sw. destruct Sw as [Sd Se].
     apply beq_eq in Se. unfold xmssSigSize in HX, HX'.
     assert (Hne : wotsChecksum P M <> wotsChecksum P M').
     { intros E. rewrite E, beq_refl in Sd. discriminate. }
-    destruct (checksum_antichain P DW M M' Hne) as [(i & Hi & Lt) (i' & Hi' & Gt)].
+    assert (Ll : forall Z, length (wotsChecksum P Z) = p_len P).
+    { intros Z. unfold wotsChecksum. cbv zeta. rewrite app_length, !base2b_length. reflexivity. }
+    destruct (checksum_antichain P DW M M' Hne) as [(i0 & Hi0 & Lt0) (i0' & Hi0' & Gt0)].
+    destruct (first_lt_exists _ _ i0 ltac:(rewrite Ll; lia) ltac:(rewrite Ll; lia) Lt0) as [i Fi].
+    destruct (first_lt_exists _ _ i0' ltac:(rewrite Ll; lia) ltac:(rewrite Ll; lia) Gt0) as [i' Fi'].
+    destruct (first_lt_some _ _ _ Fi) as (Hi & _ & Lt). destruct (first_lt_some _ _ _ Fi') as (Hi' & _ & Gt).
+    rewrite Ll in Hi, Hi'.
+    exists i, i'. split; [exact Fi|]. split; [exact Fi'|]. split; [exact Hi|]. split; [exact Hi'|].
     apply wots_switch_chains in Se; try (rewrite firstn_length; lia); try (intros; apply wotsChecksum_digit).
-    destruct Se as [C|Wk]; [left; exact C|right].
-    assert (Ec : forall c Z, c < p_len P -> length Z = (p_hp P + p_len P) * n ->
-              chunk P c (firstn (p_len P * n) Z) = chunk P c Z).
-    { intros c Z Hc HZ. unfold chunk. rewrite skipn_firstn_comm, firstn_firstn. f_equal. nia. }
-    split.
-    - exists i. split; [exact Hi|]. cbv zeta. split; [exact Lt|].
-      destruct (Wk i Hi) as [W1 _]. cbv zeta in W1. rewrite !Ec in W1 by assumption. apply W1. lia.
-    - exists i'. split; [exact Hi'|]. cbv zeta. split; [exact Gt|].
-      destruct (Wk i' Hi') as [_ W2]. cbv zeta in W2. rewrite !Ec in W2 by assumption. apply W2. lia.
+    destruct Se as [C|Wk].
+    - right. unfold tr_xmss. eapply cb_mono; [| |exact C]; apply incl_appl, incl_refl.
+    - left.
+      assert (Ec : forall c Z, c < p_len P -> length Z = (p_hp P + p_len P) * n ->
+                chunk P c (firstn (p_len P * n) Z) = chunk P c Z).
+      { intros c Z Hc HZ. unfold chunk. rewrite skipn_firstn_comm, firstn_firstn. f_equal. nia. }
+      unfold walks. cbv zeta.
+      destruct (Wk i Hi) as [W1 _]. destruct (Wk i' Hi') as [_ W2]. cbv zeta in W1, W2.
+      rewrite !Ec in W1, W2 by assumption.
+      split; [exact Lt|]. split; [apply W1; lia|]. split; [exact Gt|apply W2; lia].
   Qed.
 
-  (* a switch found by the layered boolean is a switch_at on one pair of XMSS blocks *)
-  Lemma switch_in_loop_located sH sH' : forall cnt j it node node',
-    switch_in_loop cnt j sH sH' it node node' = true ->
-    exists i l t kp M M', j <= i < j + cnt /\ switch_at l t kp M M' (gchunk sz i sH) (gchunk sz i sH') = true.
+  (* ---------- FORS public key from signature ---------- *)
+  Notation a := (p_a P).
+  (* the pieces of FORS tree i in a FORS signature, as Algorithm 17 takes them *)
+  Definition fors_sk (i : nat) (s : bytes) : bytes := firstn n (skipn (i * (a + 1) * n) s).
+  Definition fors_auth (i : nat) (s : bytes) : bytes :=
+    firstn ((i + 1) * (a + 1) * n - (i * (a + 1) + 1) * n) (skipn ((i * (a + 1) + 1) * n) s).
+  Definition fors_leaf_ad (l t kp : N) (i : nat) (x : N) : address := mkA l t T_FORSTREE kp 0 (forsLeafIdx P i x).
+  Definition fors_leaf (l t kp : N) (i : nat) (x : N) (s : bytes) : bytes := hF HS pk (fors_leaf_ad l t kp i x) (fors_sk i s).
+  (* the node at height kk that the signature s computes in tree i from its revealed leaf at index x *)
+  Definition fors_partial (l t kp : N) (i : nat) (x : N) (s : bytes) (kk : nat) : bytes :=
+    climbS P HS (fun h y => mkA l t T_FORSTREE kp h y) kk 0 (forsLeafIdx P i x) x (fors_auth i s) pk (fors_leaf l t kp i x s).
+  Definition tr_fors_tree (l t kp : N) (ind : list N) (s : bytes) (i : nat) : list call :=
+    let x := nth i ind 0%N in
+    (KF, fors_leaf_ad l t kp i x, fors_sk i s)
+    :: tr_climb (fun h y => mkA l t T_FORSTREE kp h y) a 0 (forsLeafIdx P i x) x (fors_auth i s) (fors_leaf l t kp i x s).
+  Definition fors_roots (l t kp : N) (ind : list N) (s : bytes) : bytes :=
+    flat_map (fun i => fors_partial l t kp i (nth i ind 0%N) s a) (seq 0 (p_k P)).
+  Definition tr_fors (l t kp : N) (ind : list N) (s : bytes) : list call :=
+    flat_map (tr_fors_tree l t kp ind s) (seq 0 (p_k P)) ++ [(KT, mkA l t T_FORSROOTS kp 0 0, fors_roots l t kp ind s)].
+
+  Lemma fors_pk_call l t kp ind s :
+    forsPkFromSigS P HS l t kp ind s pk = call_out HS pk (KT, mkA l t T_FORSROOTS kp 0 0, fors_roots l t kp ind s).
+  Proof. reflexivity. Qed.
+
+  Lemma fors_partial_len l t kp i x s kk : length (fors_partial l t kp i x s kk) = n.
+  Proof. unfold fors_partial. apply climbS_length. apply (hF_len _ _ OK). Qed.
+
+  Lemma tr_fors_tree_incl l t kp ind s i : i < p_k P -> incl (tr_fors_tree l t kp ind s i) (tr_fors l t kp ind s).
+  Proof. intros Hi. unfold tr_fors. apply incl_appl. apply incl_flat_map_seq. lia. Qed.
+
+  (* equal FORS public keys: equal roots in every tree, or a located collision *)
+  Lemma fors_roots_eq l t kp ind ind' s s' :
+    forsPkFromSigS P HS l t kp ind s pk = forsPkFromSigS P HS l t kp ind' s' pk ->
+    (forall i, i < p_k P -> fors_partial l t kp i (nth i ind 0%N) s a = fors_partial l t kp i (nth i ind' 0%N) s' a)
+    \/ CB (tr_fors l t kp ind s) (tr_fors l t kp ind' s') = true.
   Proof.
-    induction cnt as [|cnt IH]; intros j it node node' H; [discriminate|].
-    cbn [switch_in_loop] in H. apply orb_prop in H. destruct H as [H|H].
-    - exists j, (N.of_nat j), (htUp P it), (htLeaf P it), node, node'. split; [lia|exact H].
-    - apply IH in H. destruct H as (i & l & t & kp & M & M' & Hi & H).
-      exists i, l, t, kp, M, M'. split; [lia|exact H].
+    intros E. rewrite !fors_pk_call in E.
+    destruct (call_inj HS pk KT _ _ _ (tr_fors l t kp ind s) (tr_fors l t kp ind' s')
+                ltac:(unfold tr_fors; apply in_or_app; right; left; reflexivity)
+                ltac:(unfold tr_fors; apply in_or_app; right; left; reflexivity) E
+                ltac:(unfold fors_roots; rewrite !(flat_map_seq_length _ 0 (p_k P) n); auto using fors_partial_len))
+      as [E2|C]; [left|right; exact C].
+    intros i Hi. unfold fors_roots in E2.
+    exact (flat_map_seq_inj _ _ n (p_k P) 0 ltac:(intros; apply fors_partial_len) ltac:(intros; apply fors_partial_len) E2 i ltac:(lia)).
   Qed.
 
-  Lemma ht_switch_walk sH sH' it il M0 M0' : length sH = p_d P * sz -> length sH' = p_d P * sz -> 1 <= p_d P ->
-    ht_switch sH sH' it il M0 M0' = true ->
-    COLL \/ exists j l t kp M M', j < p_d P /\
-      let X := gchunk sz j sH in let X' := gchunk sz j sH' in
-      (exists i, i < p_len P /\
-         let m := nth i (wotsChecksum P M) 0%N in let m' := nth i (wotsChecksum P M') 0%N in
-         (m < m')%N /\ chunk P i X' = chainS HS l t kp (N.of_nat i) pk (chunk P i X) m (N.to_nat (m' - m))) /\
-      (exists i, i < p_len P /\
-         let m := nth i (wotsChecksum P M) 0%N in let m' := nth i (wotsChecksum P M') 0%N in
-         (m' < m)%N /\ chunk P i X = chainS HS l t kp (N.of_nat i) pk (chunk P i X') m' (N.to_nat (m - m'))).
+  Lemma fors_auth_len i z : i < p_k P -> length z = p_k P * ((a + 1) * n) -> length (fors_auth i z) = a * n.
+  Proof. intros Hi Hz. unfold fors_auth. rewrite firstn_length, skipn_length. nia. Qed.
+
+  Lemma fors_auth_chunk_len i z j : i < p_k P -> length z = p_k P * ((a + 1) * n) -> j < a ->
+    length (chunk P j (fors_auth i z)) = n.
+  Proof. intros Hi Hz Hj. apply gchunk_length. rewrite fors_auth_len by assumption. nia. Qed.
+
+  (* one tree, same index: same opening or a located collision *)
+  Lemma fors_tree_same l t kp ind ind' i s s' : i < p_k P -> nth i ind 0%N = nth i ind' 0%N ->
+    length s = p_k P * ((a + 1) * n) -> length s' = p_k P * ((a + 1) * n) ->
+    fors_partial l t kp i (nth i ind 0%N) s a = fors_partial l t kp i (nth i ind' 0%N) s' a ->
+    (fors_sk i s = fors_sk i s' /\ fors_auth i s = fors_auth i s')
+    \/ CB (tr_fors l t kp ind s) (tr_fors l t kp ind' s') = true.
   Proof.
-    intros L L' Hd H. unfold ht_switch in H. apply orb_prop in H.
-    assert (Loc : exists j l t kp M M', j < p_d P /\ switch_at l t kp M M' (gchunk sz j sH) (gchunk sz j sH') = true).
-    { destruct H as [H|H].
-      - exists 0, 0%N, it, il, M0, M0'. split; [lia|exact H].
-      - apply switch_in_loop_located in H. destruct H as (i & l & t & kp & M & M' & Hi & H).
-        exists i, l, t, kp, M, M'. split; [lia|exact H]. }
-    destruct Loc as (j & l & t & kp & M & M' & Hj & Sw).
-    apply switch_at_walk in Sw; try (apply gchunk_length; nia).
-    destruct Sw as [C|Wk]; [left; exact C|right]. exists j, l, t, kp, M, M'. split; [exact Hj|exact Wk].
+    intros Hi Ex Ls Ls' E. unfold fors_partial in E.
+    assert (Mono : forall T1 T2, incl T1 (tr_fors_tree l t kp ind s i) -> incl T2 (tr_fors_tree l t kp ind' s' i) ->
+              CB T1 T2 = true -> CB (tr_fors l t kp ind s) (tr_fors l t kp ind' s') = true).
+    { intros T1 T2 I1 I2 C. eapply cb_mono; [| |exact C]; eapply incl_tran; eauto using tr_fors_tree_incl. }
+    rewrite <- Ex in E.
+    apply climb_inj in E; try apply (hF_len _ _ OK).
+    2:{ intros j Hj. split; apply fors_auth_chunk_len; auto; lia. }
+    destruct E as [[El Ec]|C].
+    2:{ right. eapply Mono; [| |exact C]; unfold tr_fors_tree; cbv zeta; rewrite <- ?Ex; apply incl_tl, incl_refl. }
+    unfold fors_leaf in El.
+    destruct (call_inj HS pk KF _ _ _ (tr_fors_tree l t kp ind s i) (tr_fors_tree l t kp ind' s' i)
+                ltac:(left; reflexivity) ltac:(unfold tr_fors_tree; cbv zeta; rewrite <- Ex; left; reflexivity) El
+                ltac:(unfold fors_sk; rewrite !firstn_length, !skipn_length; nia)) as [Es|C].
+    - left. split; [exact Es|]. apply (gchunks_eq n a); try (apply fors_auth_len; assumption).
+      intros j Hj. apply Ec. lia.
+    - right. eapply Mono; [| |exact C]; apply incl_refl.
   Qed.
 
-  (* ---------- FORS public key from signature, same indices ---------- *)
   Lemma fors_inj l t kp indices s s' :
-    length s = p_k P * ((p_a P + 1) * n) -> length s' = p_k P * ((p_a P + 1) * n) ->
-    forsPkFromSigS P HS l t kp indices s pk = forsPkFromSigS P HS l t kp indices s' pk -> s = s' \/ COLL.
+    length s = p_k P * ((a + 1) * n) -> length s' = p_k P * ((a + 1) * n) ->
+    forsPkFromSigS P HS l t kp indices s pk = forsPkFromSigS P HS l t kp indices s' pk ->
+    s = s' \/ CB (tr_fors l t kp indices s) (tr_fors l t kp indices s') = true.
   Proof.
     intros Hs Hs' E. destruct (bytes_eq_dec s s') as [e|ne]; [left; exact e|right].
-    set (a := p_a P) in *.
     destruct (gchunks_diff n (p_k P * (a + 1)) s s' ltac:(lia) ltac:(lia) ne) as (c & Hc & Hd).
-    (* the tree and the position inside its block *)
     pose proof (Nat.div_mod c (a + 1) ltac:(lia)) as Dm. pose proof (Nat.mod_upper_bound c (a + 1) ltac:(lia)) as Um.
     set (i := c / (a + 1)) in *. set (r := c mod (a + 1)) in *.
     assert (Hi : i < p_k P) by nia.
-    unfold forsPkFromSigS in E. fold a in E.
-    set (G := fun z i => let ind := nth i indices 0%N in
-         let skv := firstn n (skipn (i * (a + 1) * n) z) in
-         let auth := firstn ((i + 1) * (a + 1) * n - (i * (a + 1) + 1) * n) (skipn ((i * (a + 1) + 1) * n) z) in
-         climbS P HS (fun h x => mkA l t T_FORSTREE kp h x) a 0 (forsLeafIdx P i ind) ind auth pk
-                (hF HS pk (mkA l t T_FORSTREE kp 0 (forsLeafIdx P i ind)) skv)).
-    change (hTl HS pk (mkA l t T_FORSROOTS kp 0 0) (flat_map (G s) (seq 0 (p_k P)))
-            = hTl HS pk (mkA l t T_FORSROOTS kp 0 0) (flat_map (G s') (seq 0 (p_k P)))) in E.
-    assert (LG : forall z j, length (G z j) = n).
-    { intros z j. unfold G. cbv zeta. apply climbS_length. apply (hF_len _ _ OK). }
-    apply hTl_inj in E; [|rewrite !(flat_map_seq_length _ 0 (p_k P) n); auto].
-    destruct E as [E|C]; [|exact C].
-    pose proof (flat_map_seq_inj _ _ n (p_k P) 0 ltac:(intros; apply LG) ltac:(intros; apply LG) E i ltac:(lia)) as Ei.
-    unfold G in Ei. cbv zeta in Ei.
-    replace ((i + 1) * (a + 1) * n - (i * (a + 1) + 1) * n) with (a * n) in Ei by nia.
-    assert (Lau : forall z, length z = p_k P * ((a + 1) * n) -> forall j, 0 <= j < 0 + a ->
-              length (chunk P j (firstn (a * n) (skipn ((i * (a + 1) + 1) * n) z))) = n).
-    { intros z Hz j Hj. unfold chunk. fold (gchunk n j (firstn (a * n) (skipn ((i * (a + 1) + 1) * n) z))).
-      rewrite gchunk_sub by lia. apply gchunk_length. nia. }
-    apply climb_inj in Ei; try apply (hF_len _ _ OK).
-    2:{ intros j Hj. split; [apply (Lau s)|apply (Lau s')]; auto. }
-    destruct Ei as [[El Ea]|C]; [|exact C].
-    destruct (Nat.eq_dec r 0) as [Hr|Hr].
-    - (* the revealed secret value *)
-      apply hF_inj in El.
-      2:{ rewrite !firstn_length, !skipn_length. nia. }
-      destruct El as [El|C]; [|exact C]. exfalso. apply Hd. unfold gchunk.
-      replace (c * n) with (i * (a + 1) * n) by nia. exact El.
-    - (* an authentication path node *)
-      exfalso. apply Hd. specialize (Ea (r - 1) ltac:(lia)). unfold chunk in Ea.
-      fold (gchunk n (r - 1) (firstn (a * n) (skipn ((i * (a + 1) + 1) * n) s))) in Ea.
-      fold (gchunk n (r - 1) (firstn (a * n) (skipn ((i * (a + 1) + 1) * n) s'))) in Ea.
-      rewrite !gchunk_sub in Ea by lia.
-      replace (i * (a + 1) + 1 + (r - 1)) with c in Ea by lia. exact Ea.
+    destruct (fors_roots_eq l t kp indices indices s s' E) as [Roots|C]; [|exact C].
+    destruct (fors_tree_same l t kp indices indices i s s' Hi eq_refl Hs Hs' (Roots i Hi)) as [[Es Ea]|C]; [|exact C].
+    exfalso. apply Hd. destruct (Nat.eq_dec r 0) as [Hr|Hr].
+    - unfold gchunk. replace (c * n) with (i * (a + 1) * n) by nia. exact Es.
+    - assert (Ej : gchunk n (r - 1) (fors_auth i s) = gchunk n (r - 1) (fors_auth i s')) by (rewrite Ea; reflexivity).
+      unfold fors_auth in Ej. replace ((i + 1) * (a + 1) * n - (i * (a + 1) + 1) * n) with (a * n) in Ej by nia.
+      rewrite !gchunk_sub in Ej by lia. replace (i * (a + 1) + 1 + (r - 1)) with c in Ej by lia. exact Ej.
+  Qed.
+
+  (* ---------- two FORS openings with arbitrary indices ---------- *)
+  Definition tree_consistent (l t kp : N) (i : nat) (x x' : N) (s s' : bytes) : Prop :=
+    (x = x' /\ fors_sk i s = fors_sk i s' /\ fors_auth i s = fors_auth i s') \/
+    (x <> x' /\ exists kk, kk < a /\
+       fors_partial l t kp i x' s' kk = chunk P kk (fors_auth i s) /\
+       fors_partial l t kp i x s kk = chunk P kk (fors_auth i s') /\
+       forall j, kk < j < a -> chunk P j (fors_auth i s) = chunk P j (fors_auth i s')).
+
+  Lemma leaf_parity (i : nat) (x : N) : forall j, j < a ->
+    N.land (N.shiftr x (N.of_nat j)) 1 = N.land (N.shiftr (forsLeafIdx P i x) (N.of_nat j)) 1.
+  Proof.
+    intros j Hj. unfold forsLeafIdx. rewrite (leaf_shiftr (N.of_nat i) x a j) by lia.
+    destruct (shiftl_even (N.of_nat i) (a - j) ltac:(lia)) as [X EX]. rewrite EX.
+    symmetry. apply even_add_land1.
+  Qed.
+
+  Lemma leaf_top (i : nat) (x : N) : (x < 2 ^ N.of_nat a)%N -> N.shiftr (forsLeafIdx P i x) (N.of_nat a) = N.of_nat i.
+  Proof.
+    intros H. unfold forsLeafIdx. rewrite (leaf_shiftr (N.of_nat i) x a a) by lia.
+    rewrite Nat.sub_diag. change (N.of_nat 0) with 0%N. rewrite N.shiftl_0_r.
+    rewrite N.shiftr_div_pow2, N.div_small by exact H. lia.
+  Qed.
+
+  Definition fors_consistent (l t kp : N) (ind ind' : list N) (s s' : bytes) : Prop :=
+    forall i, i < p_k P -> tree_consistent l t kp i (nth i ind 0%N) (nth i ind' 0%N) s s'.
+
+  Lemma fors_two_openings l t kp ind ind' s s' :
+    length s = p_k P * ((a + 1) * n) -> length s' = p_k P * ((a + 1) * n) ->
+    (forall i, i < p_k P -> (nth i ind 0 < 2 ^ N.of_nat a)%N) -> (forall i, i < p_k P -> (nth i ind' 0 < 2 ^ N.of_nat a)%N) ->
+    forsPkFromSigS P HS l t kp ind s pk = forsPkFromSigS P HS l t kp ind' s' pk ->
+    fors_consistent l t kp ind ind' s s' \/ CB (tr_fors l t kp ind s) (tr_fors l t kp ind' s') = true.
+  Proof.
+    intros Ls Ls' Hb Hb' E.
+    destruct (fors_roots_eq l t kp ind ind' s s' E) as [Roots|C]; [|right; exact C].
+    assert (G : forall cnt, cnt <= p_k P ->
+              (forall i, i < cnt -> tree_consistent l t kp i (nth i ind 0%N) (nth i ind' 0%N) s s')
+              \/ CB (tr_fors l t kp ind s) (tr_fors l t kp ind' s') = true).
+    { induction cnt as [|cnt IH]; intros Hc; [left; intros; lia|].
+      destruct (IH ltac:(lia)) as [IHa|C]; [|right; exact C].
+      assert (T : tree_consistent l t kp cnt (nth cnt ind 0%N) (nth cnt ind' 0%N) s s'
+                  \/ CB (tr_fors l t kp ind s) (tr_fors l t kp ind' s') = true).
+      { destruct (N.eq_dec (nth cnt ind 0%N) (nth cnt ind' 0%N)) as [Ex|Hne].
+        - destruct (fors_tree_same l t kp ind ind' cnt s s' ltac:(lia) Ex Ls Ls' (Roots cnt ltac:(lia))) as [[A B]|C];
+            [left; left; auto|right; exact C].
+        - pose proof (Roots cnt ltac:(lia)) as Er. unfold fors_partial in Er.
+          assert (Hl : forsLeafIdx P cnt (nth cnt ind 0%N) <> forsLeafIdx P cnt (nth cnt ind' 0%N)) by (unfold forsLeafIdx; lia).
+          destruct (merge (fun h y => mkA l t T_FORSTREE kp h y) a
+                      (forsLeafIdx P cnt (nth cnt ind 0%N)) (nth cnt ind 0%N) (fors_auth cnt s) (fors_leaf l t kp cnt (nth cnt ind 0%N) s)
+                      (forsLeafIdx P cnt (nth cnt ind' 0%N)) (nth cnt ind' 0%N) (fors_auth cnt s') (fors_leaf l t kp cnt (nth cnt ind' 0%N) s')
+                      (hF_len _ _ OK _ _ _) (hF_len _ _ OK _ _ _)
+                      ltac:(intros j Hj; split; apply fors_auth_chunk_len; auto; lia)
+                      (leaf_parity cnt (nth cnt ind 0%N)) (leaf_parity cnt (nth cnt ind' 0%N))
+                      ltac:(rewrite (leaf_top cnt _ (Hb cnt Hc)), (leaf_top cnt _ (Hb' cnt Hc)); reflexivity) Hl Er)
+            as [C|(kk & Hk & _ & X1 & X2 & Up)].
+          + right. eapply cb_mono; [| |exact C].
+            * apply incl_tran with (tr_fors_tree l t kp ind s cnt); [|apply tr_fors_tree_incl; lia].
+              unfold tr_fors_tree; cbv zeta; apply incl_tl, incl_refl.
+            * apply incl_tran with (tr_fors_tree l t kp ind' s' cnt); [|apply tr_fors_tree_incl; lia].
+              unfold tr_fors_tree; cbv zeta; apply incl_tl, incl_refl.
+          + left. right. split; [exact Hne|]. exists kk. split; [exact Hk|]. split; [exact X2|]. split; [exact X1|exact Up]. }
+      destruct T as [T|C]; [left|right; exact C].
+      intros i Hi. destruct (Nat.eq_dec i cnt) as [->|Hn]; [exact T|apply IHa; lia]. }
+    exact (G (p_k P) (le_n _)).
   Qed.
 End FORGERY.
 
-(* ---------- why the event has to be located ----------
+(* ---------- why the switch event has to be located ----------
    "there exist two WOTS+ signatures on values with different digit strings that lead to the
    same WOTS+ public key" holds for EVERY hash family and every pair of values: whoever holds
    the chain start values signs both (this is wotsS_complete twice). *)
@@ -635,62 +1088,75 @@ Section TOP.
   Definition sig_fors (sig : bytes) : bytes := firstn ((1 + p_k P * (1 + p_a P)) * n - n) (skipn n sig).
   Definition sig_ht (sig : bytes) : bytes := skipn ((1 + p_k P * (1 + p_a P)) * n) sig.
 
-  (* THE LOCATED EVENT for two signatures verified for (msg, sig)'s selectors: a boolean
-     computed from the two signatures (the FORS public keys each yields, then layer by layer) *)
+  (* the hash calls (function, ADRS, input) the verification of a signature makes for given selectors *)
+  Definition sig_trace (pkSeed : bytes) (sel : list N * N * N) (sig : bytes) : list call :=
+    let '(ind, it, il) := sel in
+    tr_fors P HS pkSeed 0 it il ind (sig_fors sig)
+    ++ tr_ht P HS pkSeed (sig_ht sig) it il (forsPkFromSigS P HS 0 it il ind (sig_fors sig) pkSeed).
+
+  (* THE LOCATED COLLISION of two signatures verified for (msg, sig)'s selectors: two calls, one in
+     each verification, of the same function with the same ADRS on DIFFERENT inputs of EQUAL length
+     with equal outputs -- a boolean computed from the two signatures *)
+  Definition located_collision (pkSeed pkRoot msg sig sig' : bytes) : bool :=
+    let sel := selectors pkSeed pkRoot msg sig in
+    cb HS pkSeed (sig_trace pkSeed sel sig) (sig_trace pkSeed sel sig').
+
+  (* THE LOCATED SWITCH of two signatures verified for (msg, sig)'s selectors *)
   Definition sig_switch (pkSeed pkRoot msg sig sig' : bytes) : bool :=
     let '(ind, it, il) := selectors pkSeed pkRoot msg sig in
     ht_switch P HS pkSeed (sig_ht sig) (sig_ht sig') it il
       (forsPkFromSigS P HS 0 it il ind (sig_fors sig) pkSeed) (forsPkFromSigS P HS 0 it il ind (sig_fors sig') pkSeed).
 
+  (* ... and where it is: layer, WOTS+ address (layer, tree, key pair), the two values signed there *)
+  Definition sig_switch_find (pkSeed pkRoot msg sig sig' : bytes) : option (nat * N * N * N * bytes * bytes) :=
+    let '(ind, it, il) := selectors pkSeed pkRoot msg sig in
+    ht_switch_find P HS pkSeed (sig_ht sig) (sig_ht sig') it il
+      (forsPkFromSigS P HS 0 it il ind (sig_fors sig) pkSeed) (forsPkFromSigS P HS 0 it il ind (sig_fors sig') pkSeed).
+
+  Lemma sig_parts_len sig : length sig = sig_len P ->
+    length (sig_fors sig) = p_k P * ((p_a P + 1) * n) /\ length (sig_ht sig) = p_d P * xmssSigSize P.
+  Proof.
+    intros L. destruct WF as [Hh Hd]. unfold sig_fors, sig_ht. rewrite firstn_length, !skipn_length, L.
+    unfold sig_len, xmssSigSize. rewrite Hh. split; nia.
+  Qed.
+
+  Lemma sig_body_parts sig : sig_body sig = sig_fors sig ++ sig_ht sig.
+  Proof.
+    unfold sig_body, sig_fors, sig_ht. set (fi := 1 + p_k P * (1 + p_a P)).
+    rewrite <- (firstn_skipn (fi * n - n) (skipn n sig)) at 1. f_equal.
+    rewrite skipn_add. f_equal. unfold fi. nia.
+  Qed.
+
+  Lemma fors_pk_ok l t kp ind s pk : wfb (forsPkFromSigS P HS l t kp ind s pk) /\ length (forsPkFromSigS P HS l t kp ind s pk) = n.
+  Proof. unfold forsPkFromSigS. split; [apply (hTl_wfb _ WB)|apply (hTl_len _ _ OK)]. Qed.
+
   Theorem two_accepted_signatures : forall pkSeed pkRoot msg sig msg' sig',
     verifyInternal P HS pkSeed pkRoot msg sig = true ->
     verifyInternal P HS pkSeed pkRoot msg' sig' = true ->
     selectors pkSeed pkRoot msg sig = selectors pkSeed pkRoot msg' sig' ->
-    sig_body sig = sig_body sig' \/ sig_switch pkSeed pkRoot msg sig sig' = true \/ th_collision HS pkSeed.
+    sig_body sig = sig_body sig' \/ sig_switch pkSeed pkRoot msg sig sig' = true
+    \/ located_collision pkSeed pkRoot msg sig sig' = true.
   Proof.
     intros pkSeed pkRoot msg sig msg' sig' V V' Sel.
     rewrite verifyInternal_fips in V, V'. unfold verifyInternalS in V, V'.
-    unfold sig_switch. unfold selectors in *.
+    unfold sig_switch, located_collision. unfold selectors in *.
     destruct (Nat.eqb_spec (length sig) (sig_len P)) as [L|L]; [cbn [negb] in V|discriminate].
     destruct (Nat.eqb_spec (length sig') (sig_len P)) as [L'|L']; [cbn [negb] in V'|discriminate].
     destruct (split_digest P (hHMsg HS (firstn n sig) pkSeed pkRoot msg)) as [[md it] il].
     destruct (split_digest P (hHMsg HS (firstn n sig') pkSeed pkRoot msg')) as [[md' it'] il'].
     inversion Sel as [[Ei Et El]]. subst it' il'. rewrite <- Ei in V'. clear Ei Sel.
     set (ind := base2b md (p_a P) (p_k P)) in *.
-    destruct WF as [Hh Hd].
     fold (sig_fors sig) in V. fold (sig_fors sig') in V'. fold (sig_ht sig) in V. fold (sig_ht sig') in V'.
-    set (sF := sig_fors sig) in *. set (sF' := sig_fors sig') in *.
-    set (sH := sig_ht sig) in *. set (sH' := sig_ht sig') in *.
-    assert (LsF : length sF = p_k P * ((p_a P + 1) * n) /\ length sF' = p_k P * ((p_a P + 1) * n)).
-    { unfold sF, sF', sig_fors. rewrite !firstn_length, !skipn_length, L, L'. unfold sig_len. nia. }
-    assert (LsH : length sH = p_d P * xmssSigSize P /\ length sH' = p_d P * xmssSigSize P).
-    { unfold sH, sH', sig_ht. rewrite !skipn_length, L, L'. unfold sig_len, xmssSigSize. rewrite Hh. nia. }
-    destruct LsF as [LF LF']. destruct LsH as [LH LH'].
-    set (M0 := forsPkFromSigS P HS 0 it il ind sF pkSeed) in *.
-    set (M0' := forsPkFromSigS P HS 0 it il ind sF' pkSeed) in *.
-    assert (WM : wfb M0 /\ wfb M0' /\ length M0 = n /\ length M0' = n).
-    { unfold M0, M0', forsPkFromSigS. repeat split; try apply (hTl_wfb _ WB); apply (hTl_len _ _ OK). }
-    destruct WM as (WM & WM' & LM & LM').
-    unfold htVerifyS in V, V'. apply beq_eq in V, V'. rewrite <- V' in V. clear V'.
-    unfold ht_switch.
-    change (firstn (xmssSigSize P) sH) with (gchunk (xmssSigSize P) 0 sH) in V.
-    change (firstn (xmssSigSize P) sH') with (gchunk (xmssSigSize P) 0 sH') in V.
-    apply (ht_loop_inj P HS OK pkSeed WB DW sH sH' (p_d P) LH LH') in V;
-      try lia; try apply xmss_out_wfb; try apply xmss_out_len; auto.
-    destruct V as [[V Rest]|[Sw|C]]; [|right; left; rewrite Sw; apply orb_true_r|right; right; exact C].
-    apply (xmss_layer P HS OK pkSeed DW) in V; auto; try (apply gchunk_length; nia).
-    destruct V as [[V0 B0]|[Sw|C]]; [|right; left; rewrite Sw; reflexivity|right; right; exact C].
-    apply (fors_inj P HS OK) in V0; auto.
-    destruct V0 as [V0|C]; [left|right; right; exact C].
-    assert (EH : sH = sH').
-    { apply (gchunks_eq (xmssSigSize P) (p_d P)); auto. intros i Hi.
-      destruct (Nat.eq_dec i 0) as [->|Hne]; [exact B0|apply Rest; lia]. }
-    unfold sig_body.
-    set (fi := 1 + p_k P * (1 + p_a P)) in *.
-    rewrite <- (firstn_skipn (fi * n - n) (skipn n sig)), <- (firstn_skipn (fi * n - n) (skipn n sig')).
-    rewrite !skipn_add.
-    replace (fi * n - n + n) with (fi * n) by (unfold fi; nia).
-    change (sF ++ sH = sF' ++ sH'). congruence.
+    destruct (sig_parts_len sig L) as [LF LH]. destruct (sig_parts_len sig' L') as [LF' LH'].
+    destruct WF as [Hh Hd]. unfold sig_trace.
+    destruct (fors_pk_ok 0 it il ind (sig_fors sig) pkSeed) as [WM LM].
+    destruct (fors_pk_ok 0 it il ind (sig_fors sig') pkSeed) as [WM' LM'].
+    destruct (ht_inj P HS OK pkSeed WB DW _ _ it il _ _ pkRoot LH LH' Hd WM WM' LM LM' V V') as [[V0 EH]|[Sw|C]].
+    - apply (fors_inj P HS OK) in V0; auto. destruct V0 as [V0|C].
+      + left. rewrite !sig_body_parts. congruence.
+      + right; right. eapply cb_mono; [| |exact C]; apply incl_appl, incl_refl.
+    - right; left. exact Sw.
+    - right; right. eapply cb_mono; [| |exact C]; apply incl_appr, incl_refl.
   Qed.
 
   (* the signature-modification clause: same message, same R, same key *)
@@ -698,7 +1164,7 @@ Section TOP.
     verifyInternal P HS pkSeed pkRoot msg sig = true ->
     verifyInternal P HS pkSeed pkRoot msg sig' = true ->
     firstn n sig = firstn n sig' -> sig <> sig' ->
-    sig_switch pkSeed pkRoot msg sig sig' = true \/ th_collision HS pkSeed.
+    sig_switch pkSeed pkRoot msg sig sig' = true \/ located_collision pkSeed pkRoot msg sig sig' = true.
   Proof.
     intros pkSeed pkRoot msg sig sig' V V' ER Hne.
     destruct (two_accepted_signatures pkSeed pkRoot msg sig msg sig' V V') as [E|R]; [|exfalso|exact R].
@@ -706,23 +1172,33 @@ Section TOP.
     - apply Hne. rewrite <- (firstn_skipn n sig), <- (firstn_skipn n sig'). unfold sig_body in E. congruence.
   Qed.
 
-  (* what a located switch between two signatures of the right length means *)
+  (* what a located switch between two signatures of the right length means, at the layer and
+     the chains that sig_switch_find / first_lt COMPUTE *)
   Theorem sig_switch_walk : forall pkSeed pkRoot msg sig sig',
     length sig = sig_len P -> length sig' = sig_len P ->
-    sig_switch pkSeed pkRoot msg sig sig' = true ->
-    th_collision HS pkSeed \/ exists j l t kp M M', j < p_d P /\
+    match sig_switch_find pkSeed pkRoot msg sig sig' with
+    | None => sig_switch pkSeed pkRoot msg sig sig' = false
+    | Some (j, l, t, kp, M, M') =>
+      sig_switch pkSeed pkRoot msg sig sig' = true /\ j < p_d P /\
       let X := gchunk (xmssSigSize P) j (sig_ht sig) in let X' := gchunk (xmssSigSize P) j (sig_ht sig') in
-      (exists i, i < p_len P /\
-         let m := nth i (wotsChecksum P M) 0%N in let m' := nth i (wotsChecksum P M') 0%N in
-         (m < m')%N /\ chunk P i X' = chainS HS l t kp (N.of_nat i) pkSeed (chunk P i X) m (N.to_nat (m' - m))) /\
-      (exists i, i < p_len P /\
-         let m := nth i (wotsChecksum P M) 0%N in let m' := nth i (wotsChecksum P M') 0%N in
-         (m' < m)%N /\ chunk P i X = chainS HS l t kp (N.of_nat i) pkSeed (chunk P i X') m' (N.to_nat (m - m'))).
+      exists i i', first_lt (wotsChecksum P M) (wotsChecksum P M') = Some i /\
+                   first_lt (wotsChecksum P M') (wotsChecksum P M) = Some i' /\ i < p_len P /\ i' < p_len P /\
+        (walks P HS pkSeed l t kp M M' X X' i i' \/ located_collision pkSeed pkRoot msg sig sig' = true)
+    end.
   Proof.
-    intros pkSeed pkRoot msg sig sig' L L' Sw. unfold sig_switch in Sw.
-    destruct (selectors pkSeed pkRoot msg sig) as [[ind it] il]. destruct WF as [Hh Hd].
-    apply (ht_switch_walk P HS OK pkSeed DW) in Sw; auto;
-      unfold sig_ht; rewrite skipn_length; [rewrite L|rewrite L']; unfold sig_len, xmssSigSize; rewrite Hh; nia.
+    intros pkSeed pkRoot msg sig sig' L L'. unfold sig_switch_find, sig_switch, located_collision, sig_trace.
+    destruct (selectors pkSeed pkRoot msg sig) as [[ind it] il].
+    destruct (sig_parts_len sig L) as [_ LH]. destruct (sig_parts_len sig' L') as [_ LH']. destruct WF as [Hh Hd].
+    pose proof (ht_switch_find_spec P HS pkSeed (sig_ht sig) (sig_ht sig') it il
+                  (forsPkFromSigS P HS 0 it il ind (sig_fors sig) pkSeed) (forsPkFromSigS P HS 0 it il ind (sig_fors sig') pkSeed)) as S.
+    destruct (ht_switch_find P HS pkSeed (sig_ht sig) (sig_ht sig') it il _ _) as [[[[[[j l] t] kp] M] M']|]; [|exact S].
+    destruct S as (A & B & C & D1 & D2). split; [exact A|]. split; [lia|]. cbv zeta.
+    destruct (switch_at_walk P HS OK pkSeed DW l t kp M M' (gchunk (xmssSigSize P) j (sig_ht sig)) (gchunk (xmssSigSize P) j (sig_ht sig'))
+                ltac:(apply gchunk_length; nia) ltac:(apply gchunk_length; nia) C)
+      as (i & i' & F1 & F2 & Hi & Hi' & [Wk|Cb]).
+    - exists i, i'. repeat split; auto.
+    - exists i, i'. repeat split; auto. right.
+      eapply cb_mono; [| |exact Cb]; apply incl_appr; assumption.
   Qed.
 
   (* the key-modification clause (same PK.seed): one signature cannot verify under two roots
